@@ -18,7 +18,9 @@ Record dataset := mkDs {
   ds_data : list Z;          (* element bytes in the caller's (little-endian host) memory order, row major *)
   ds_scales : list (option (list Z));   (* per dimension: the scale values (bytes, type ds_nt) if one was set *)
   ds_strs : option (list Z * list Z * list Z);   (* label, unit, format of the data *)
-  ds_range : option (list Z * list Z)   (* maximum, minimum (bytes, type ds_nt) *)
+  ds_range : option (list Z * list Z);  (* maximum, minimum (bytes, type ds_nt) *)
+  ds_dstrs : list (option (list Z * list Z * list Z));   (* per dimension: label, unit, format *)
+  ds_dnames : list (list Z)             (* per dimension: the name the writer gave it ([] = none) *)
 }.
 
 Record image := mkIm {
@@ -102,7 +104,8 @@ Definition w_vgi := 11. Definition w_n := 12. Definition w_lut := 13. Definition
 Definition w_dfan := 15. Definition w_an := 16. Definition w_fl := 17. Definition w_fd := 18. Definition w_ol := 19.
 Definition w_od := 20. Definition w_nostrip := 21. Definition w_nopal := 22.
 Definition w_dfsdmeta := 23. Definition w_sdmeta := 24. Definition w_scale := 25. Definition w_strs := 26.
-Definition w_range := 27. Definition w_none := 28.
+Definition w_range := 27. Definition w_none := 28. Definition w_dfsdp := 29. Definition w_dfr8p := 30.
+Definition w_padok := 31. Definition w_dstrs := 32. Definition w_dname := 33.
 
 Definition line := list tok.
 
@@ -133,6 +136,16 @@ Definition meta_lines (view : Z) (has : bool) (kd : Z * dataset) : list line :=
   map (fun js => [TS view; TI k; TS w_scale; TI (fst js)] ++
                  match snd js with Some b => if has then [TH b] else [TS w_none] | None => [TS w_none] end)
       (number 0 (ds_scales d)) ++
+  map (fun js => [TS view; TI k; TS w_dstrs; TI (fst js)] ++
+                 match snd js with
+                 | Some (l, u, f) => if has then [TH l; TH u; TH f] else [TH []; TH []; TH []]
+                 | None => [TH []; TH []; TH []]
+                 end)
+      (number 0 (ds_dstrs d)) ++
+  (if view =? w_sdmeta then
+     flat_map (fun jn => match snd jn with [] => [] | nm => [[TS view; TI k; TS w_dname; TI (fst jn); TH nm]] end)
+              (number 0 (ds_dnames d))
+   else []) ++
   [[TS view; TI k; TS w_strs] ++
    match ds_strs d with
    | Some (l, u, f) => if has then [TH l; TH u; TH f] else [TH []; TH []; TH []]
@@ -152,7 +165,7 @@ Definition meta_lines (view : Z) (has : bool) (kd : Z * dataset) : list line :=
     of its own, right after the dataset it was set for. *)
 Definition scale_datasets (d : dataset) : list dataset :=
   flat_map (fun js => match snd js with
-                      | Some b => [mkDs [nth (Z.to_nat (fst js)) (ds_dims d) 0] (ds_nt d) b [None] None None]
+                      | Some b => [mkDs [nth (Z.to_nat (fst js)) (ds_dims d) 0] (ds_nt d) b [None] None None [None] [[]]]
                       | None => []
                       end) (number 0 (ds_scales d)).
 Definition ndg_datasets (writer : Z) (l : list dataset) : list dataset :=
@@ -163,6 +176,8 @@ Definition sds_views (writer : Z) (l : list dataset) : list line :=
   let ndl := number 0 (ndg_datasets writer l) in
   let cnt (v : Z) := [[TS v; TS w_n; TI (zlen l)]] in
   [[TS w_dfsd; TS w_n; TI (zlen ndl)]] ++ map (sds_line w_dfsd same_type same_order) ndl ++
+  (* the same through a caller's array larger than the dataset: same values, rest of the array untouched *)
+  map (fun kd => sds_line w_dfsdp same_type same_order kd ++ [TS w_padok]) ndl ++
   flat_map (meta_lines w_dfsdmeta (writer =? 1)) ndl ++
   map (sds_line w_sd same_type same_order) nl ++ cnt w_sd ++
   flat_map (meta_lines w_sdmeta (negb (writer =? 3))) nl ++
@@ -217,6 +232,8 @@ Definition img_views (writer ril : Z) (l : list image) : list line :=
   let r24 := filter (fun m => im_ncomp m =? 3) rigs in
   let pals := somes (map im_pal l) in
   [[TS w_dfr8; TS w_n; TI (zlen r8)]] ++ map dfr8_line (number 0 r8) ++
+  map (fun km => [TS w_dfr8p; TI (fst km); TI (im_x (snd km)); TI (im_y (snd km)); TH (pixels (snd km) 0); TS w_padok])
+      (number 0 r8) ++
   [[TS w_df24; TS w_n; TI (zlen r24)]] ++ map (df24_line writer ril) (number 0 r24) ++
   [[TS w_gr; TS w_n; TI (zlen l)]] ++ map (gr_line w_gr writer ril) (number 0 l) ++
   [[TS w_dfp; TS w_n; TI (zlen pals)]] ++ map (fun kp => [TS w_dfp; TI (fst kp); TH (snd kp)]) (number 0 pals) ++
